@@ -485,6 +485,256 @@ def mon_c11(res):
     return fails
 
 
+def mon_c04(res):
+    fails = []
+    exp = res.case.get("exp")
+    if res.hv[0] != "ok" or not exp:
+        return fails
+    ptr = res.case.get("ptr", 4)
+    crate = crate_of(res)
+    for tpath, t in exp["types"].items():
+        descs = t.get("slot_descs") or []
+        f, tname = file_of_type(res, tpath)
+        ms = methods_of(f, tname)
+        if t.get("declared_vft"):
+            fields = vftable_fields(res, tpath)
+            if fields is None:
+                fails.append(dict(clause="C04.vftable_struct_missing", detail=tpath))
+                continue
+            if len(fields) != len(descs):
+                fails.append(dict(clause="C04.table_length", detail="%s: %d slots emitted, %d declared" % (tpath, len(fields), len(descs))))
+            for k, (name, vis, ty) in enumerate(fields[:len(descs)]):
+                d = descs[k]
+                if d is None:
+                    if name != "_vfunc_%d" % k or vis != "priv":
+                        fails.append(dict(clause="C04.placeholder", detail="%s slot %d is `%s` (%s)" % (tpath, k, name, vis)))
+                    elif not ty.startswith('unsafe extern (s "thiscall") fn (paren this : * mut'):
+                        fails.append(dict(clause="C04.placeholder_type", detail="%s slot %d: %s" % (tpath, k, ty[:80])))
+                elif name != d["name"]:
+                    fails.append(dict(clause="C04.slot", detail="%s: slot %d holds `%s`, declared `%s`" % (tpath, k, name, d["name"])))
+            try:
+                _, _, lay = crate.item_layout(tuple(tpath.split("::")[:-1]) + (tname + "Vftable",))
+                for k, (n, off, sz) in enumerate(lay):
+                    if off != k * ptr or sz != ptr:
+                        fails.append(dict(clause="C04.slot_offset", detail="%sVftable.%s at %d size %d" % (tpath, n, off, sz)))
+            except pylayout.LayoutError as e:
+                fails.append(dict(clause="C04.vftable_layout", detail="%s: %s" % (tpath, e)))
+        if t.get("has_vftable"):
+            if "vftable" not in ms:
+                fails.append(dict(clause="C04.accessor_missing", detail=tpath))
+            for d in descs:
+                if d is None or d["name"].startswith("_"):
+                    continue
+                m = ms.get(d["name"])
+                if m is None:
+                    fails.append(dict(clause="C04.wrapper_missing", detail="%s::%s" % (tpath, d["name"])))
+                    continue
+                check_wrapper_against(d, m, "C04", tpath, fails, "vftable")
+    return [x for x in fails if x["clause"].startswith("C04")]
+
+
+def mon_c06(res):
+    fails = []
+    exp = res.case.get("exp")
+    if res.hv[0] != "ok" or not exp:
+        return fails
+    for tpath, t in exp["types"].items():
+        f, tname = file_of_type(res, tpath)
+        st = struct_of(f, tname)
+        if st is None:
+            continue
+        fields = [(str(x[3]), x[2], " ".join(sx.show(y) for y in x[4][1:])) for x in st[4:] if isinstance(x, list) and x[0] == "field"]
+        names = [n for n, _, _ in fields]
+        ms = methods_of(f, tname)
+        bf = t.get("base_fields") or []
+        first_base_has = bool(bf) and exp["types"].get(bf[0][1], {}).get("has_vftable")
+        if first_base_has:
+            if "vftable" in names:
+                fails.append(dict(clause="C06.own_pointer_despite_base", detail=tpath))
+            acc = ms.get("vftable")
+            if acc is None:
+                fails.append(dict(clause="C06.accessor_missing", detail=tpath))
+            else:
+                body = " ".join(sx.show(x) for x in fn_parts(acc)["body"])
+                want_ty = (tname if t.get("declared_vft") else None)
+                if not body.startswith("self . %s . vftable (paren) as * const " % bf[0][0]):
+                    fails.append(dict(clause="C06.accessor_via_base", detail="%s: %s" % (tpath, body[:200])))
+                elif want_ty and not body.endswith(": : %sVftable" % want_ty) and not body.endswith(" %sVftable" % want_ty):
+                    fails.append(dict(clause="C06.accessor_type", detail="%s: %s" % (tpath, body[:200])))
+            if t.get("declared_vft"):
+                mine = vftable_fields(res, tpath) or []
+                base = vftable_fields(res, _vft_owner(exp, bf[0][1])) or []
+                if len(mine) < len(base) or [n for n, _, _ in mine[:len(base)]] != [n for n, _, _ in base]:
+                    fails.append(dict(clause="C06.prefix", detail="%s: derived table %s does not extend base table %s"
+                                      % (tpath, [n for n, _, _ in mine], [n for n, _, _ in base])))
+                else:
+                    for (n, v1, t1), (_, v2, t2) in zip(mine, base):
+                        strip = lambda s_: _re.sub(r"this : \* (const|mut) [^,)]*", "this", s_)
+                        if strip(t1) != strip(t2):
+                            fails.append(dict(clause="C06.slot_signature", detail="%s slot %s: %s vs base %s" % (tpath, n, t1[:120], t2[:120])))
+        elif t.get("declared_vft"):
+            if not fields or fields[0][0] != "vftable" or fields[0][1] != "priv":
+                fails.append(dict(clause="C06.own_pointer_first", detail="%s: fields %s" % (tpath, names[:3])))
+            elif not fields[0][2].endswith("%sVftable" % tname) or not fields[0][2].startswith("* const"):
+                fails.append(dict(clause="C06.own_pointer_type", detail="%s: %s" % (tpath, fields[0][2])))
+            if names.count("vftable") != 1:
+                fails.append(dict(clause="C06.single_pointer", detail=tpath))
+    return fails
+
+
+def _vft_owner(exp, tpath):
+    """the type whose <T>Vftable struct describes tpath's table (walk first bases while no own block)"""
+    seen = 0
+    while seen < 20:
+        t = exp["types"].get(tpath)
+        if not t or t.get("declared_vft") or not t.get("base_fields"):
+            return tpath
+        tpath = t["base_fields"][0][1]
+        seen += 1
+    return tpath
+
+
+def public_assoc(exp, tpath, memo):
+    """ordered names of the public associated functions pyxis gives type tpath (injected + own impl)"""
+    if tpath in memo:
+        return memo[tpath]
+    t = exp["types"].get(tpath)
+    if t is None:
+        return []
+    memo[tpath] = []
+    used = set(d["name"] if d else "_vfunc_%d" % k for k, d in enumerate(t.get("slot_descs") or []))
+    out = []       # (emitted name, field, original name)
+    for i, (fname, bpath) in enumerate(t.get("base_fields") or []):
+        cands = [n for n, _, _ in public_assoc(exp, bpath, memo)]
+        if i > 0:
+            bt = exp["types"].get(bpath) or {}
+            cands += [d["name"] for d in (bt.get("slot_descs") or []) if d and d["pub"]]
+        for g in cands:
+            name = g if g not in used else "%s_%s" % (fname, g)
+            used.add(name)
+            out.append((name, fname, g))
+    for d in t["impls"]:
+        if d["pub"]:
+            out.append((d["name"], None, d["name"]))
+        used.add(d["name"])
+    memo[tpath] = out
+    return out
+
+
+def hierarchy(exp, tpath, prefix=()):
+    out = []
+    t = exp["types"].get(tpath)
+    if not t:
+        return out
+    for fname, bpath in t.get("base_fields") or []:
+        out.append((prefix + (fname,), bpath))
+        out.extend(hierarchy(exp, bpath, prefix + (fname,)))
+    return out
+
+
+def mon_c07(res):
+    fails = []
+    exp = res.case.get("exp")
+    if res.hv[0] != "ok" or not exp:
+        return fails
+    memo = {}
+    for tpath, t in exp["types"].items():
+        if not t.get("base_fields"):
+            continue
+        f, tname = file_of_type(res, tpath)
+        ms = methods_of(f, tname)
+        for name, field, orig in public_assoc(exp, tpath, memo):
+            if field is None or name.startswith("_"):
+                continue
+            m = ms.get(name)
+            if m is None:
+                fails.append(dict(clause="C07.forward_missing", detail="%s::%s (forwarding %s.%s)" % (tpath, name, field, orig)))
+                continue
+            body = " ".join(sx.show(x) for x in fn_parts(m)["body"])
+            if not body.startswith("self . %s . %s (paren" % (field, orig)):
+                fails.append(dict(clause="C07.forward_target", detail="%s::%s: %s" % (tpath, name, body[:200])))
+            else:
+                params = [p for p in params_shape(fn_parts(m)["params"]) if not p.startswith("&")]
+                args = body[body.index("(paren") + 6:-1].strip()
+                if args != " , ".join(params):
+                    fails.append(dict(clause="C07.forward_args", detail="%s::%s passes (%s), takes %s" % (tpath, name, args, params)))
+        # AsRef / AsMut
+        h = hierarchy(exp, tpath)
+        counts = collections.Counter(b for _, b in h)
+        impls = {}
+        if f is not None and f[0] == "file":
+            for it in f[2:]:
+                if isinstance(it, list) and it[0] == "impl" and it[2] != "notrait" and sx.show(it[3]) == "(self %s)" % tname:
+                    tr = " ".join(sx.show(x) for x in it[2][1:])
+                    fn = [x for x in it[4:] if isinstance(x, list) and x[0] == "fn"]
+                    impls[tr] = " ".join(sx.show(x) for x in fn_parts(fn[0])["body"]) if fn else None
+        mod = tuple(tpath.split("::")[:-1])
+        for fp, b in h:
+            target = "crate : : " + " : : ".join(b.split("::"))
+            k_ref = "std : : convert : : AsRef < %s >" % target
+            k_mut = "std : : convert : : AsMut < %s >" % target
+            if counts[b] == 1:
+                if impls.get(k_ref) != "& self . " + " . ".join(fp):
+                    fails.append(dict(clause="C07.asref", detail="%s -> %s: %s" % (tpath, b, impls.get(k_ref))))
+                if impls.get(k_mut) != "& mut self . " + " . ".join(fp):
+                    fails.append(dict(clause="C07.asmut", detail="%s -> %s: %s" % (tpath, b, impls.get(k_mut))))
+            elif k_ref in impls or k_mut in impls:
+                fails.append(dict(clause="C07.asref_ambiguous", detail="%s -> %s occurs %d times yet a conversion is emitted" % (tpath, b, counts[b])))
+    return fails
+
+
+def mon_c15(res):
+    fails = []
+    exp = res.case.get("exp")
+    if res.hv[0] != "ok" or not exp:
+        return fails
+    for tpath, t in list(exp["types"].items()) + list(exp["enums"].items()):
+        if t.get("singleton") is None:
+            continue
+        f, tname = file_of_type(res, tpath)
+        m = methods_of(f, tname).get("get")
+        if m is None:
+            fails.append(dict(clause="C15.get_missing", detail=tpath))
+            continue
+        fp = fn_parts(m)
+        body = " ".join(sx.show(x) for x in fp["body"])
+        is_enum = tpath in exp["enums"]
+        if (fp["vis"] == "pub") != t["pub"]:
+            fails.append(dict(clause="C15.get_vis", detail=tpath))
+        if is_enum:
+            want = "unsafe (brace * (paren (i %d -) as * const Self))" % t["singleton"]
+            ret = "Self"
+        else:
+            want = "unsafe (brace let ptr : * mut Self = * (paren (i %d usize) as * mut * mut Self) ; ptr . as_mut (paren))" % t["singleton"]
+            ret = "Option < & ' static mut Self >"
+        if body != want:
+            fails.append(dict(clause="C15.singleton_body", detail="%s: %s" % (tpath, body[:200])))
+        if " ".join(sx.show(x) for x in fp["ret"]) != ret:
+            fails.append(dict(clause="C15.singleton_ret", detail="%s: %s" % (tpath, sx.show(fp["ret"]))))
+    for epath, e in exp["externs"].items():
+        parts = epath.split("::")
+        f = res.hfiles.get("/".join(parts[:-1]) + ".rs")
+        fn = None
+        if f is not None and f[0] == "file":
+            for it in f[2:]:
+                if isinstance(it, list) and it[0] == "fn" and it[4] == "get_" + parts[-1]:
+                    fn = it
+        if fn is None:
+            fails.append(dict(clause="C15.extern_missing", detail=epath))
+            continue
+        fp = fn_parts(fn)
+        body = " ".join(sx.show(x) for x in fp["body"])
+        ret = " ".join(sx.show(x) for x in fp["ret"])
+        if (fp["vis"] == "pub") != e["pub"]:
+            fails.append(dict(clause="C15.extern_vis", detail=epath))
+        mm = _re.match(r"^unsafe \(brace & mut \* \(paren \(i (\d+) -\) as \* mut (.*)\)\)$", body)
+        if not mm or int(mm.group(1)) != e["addr"]:
+            fails.append(dict(clause="C15.extern_address", detail="%s: %s (declared %d)" % (epath, body[:160], e["addr"])))
+        elif not ret.startswith("& ' static mut ") or ret[len("& ' static mut "):] != mm.group(2):
+            fails.append(dict(clause="C15.extern_type", detail="%s: returns %s, casts to %s" % (epath, ret, mm.group(2))))
+    return fails
+
+
 # ------------------------------------------------------------------------------------------------
 # property table
 
@@ -591,6 +841,72 @@ PROPS["C11"] = dict(
                "used for layout are that entry's. Correspondence compares every emitted field/parameter/return type and the registry; the monitor recomputes the binding "
                "from the four rules (independently of model and implementation) and checks emitted paths and the observer's size.",
     level_note="Trusted: Coq kernel; model validated by this run's correspondence. Scope note: a module path that is also an item path (a directory and a type sharing a name) is outside the theorem's hypothesis.",
+)
+
+INHERIT_PROFILE = dict(FUNC_PROFILE, p_base=0.75, p_vftable=0.6, types=(2, 6), vfuncs=(0, 4), p_impl=0.7, impl_fns=(0, 3),
+                       fields=(0, 2), p_index=0.3, modules=(1, 2))
+
+PROPS["C04"] = dict(
+    profile=dict(FUNC_PROFILE, p_vftable=0.85, vfuncs=(0, 8), p_index=0.45, p_base=0.4, p_impl=0.2), n=(400, 6000), corpus=["common", "C04"],
+    aspects=["verdict", "fields", "field_types", "accessor", "body_vftable", "fn_sig", "methods", "items"],
+    monitors=[mon_c04],
+    nontrivial=lambda res: res.hv[0] == "ok" and res.case.get("exp") and any(
+        t.get("has_vftable") and any(t.get("slot_descs") or []) for t in res.case["exp"]["types"].values()),
+    rule="gen.py FUNC profile weighted to vftable blocks: 0..8 functions, increasing / equal index patterns with gaps, table sizes at and above the count, "
+         "&self/&mut self, 0..6 arguments, own and inherited tables; near-miss stream: index below position, size below slot count; "
+         "non-trivial = accepted and some type has a vftable with >= 1 declared function",
+    level_text="Proved in Coq (Properties/C04.v), for tables of any length: slot_plan positions = where the model puts each declared function, all other slots are "
+               "_vfunc_k placeholders, table length max(size, last+1); contradicting index / too small size cannot be accepted; slot k of the generated struct is at byte offset k*ptr; "
+               "RustExec: the wrapper loads the object's vftable pointer (own first field, or the base sub-object's accessor) and makes exactly one call to the entry in its slot with receiver "
+               "first and arguments in order. Correspondence compares vftable struct fields/types, accessor and wrapper bodies; the monitor re-derives slots, placeholder shape, "
+               "slot byte offsets (independent layout calculator) and wrapper call shape from the implementation's files against the description.",
+    level_note="Trusted: Coq kernel; model validated by this run's correspondence; RustExec.v is the meaning given to the three-line wrapper template (spec side, not rustc); "
+               "slot lookup by name assumes distinct function names in one table (duplicates are a C13 matter).",
+)
+PROPS["C06"] = dict(
+    profile=INHERIT_PROFILE, n=(400, 6000), corpus=["common", "C06"],
+    aspects=["verdict", "fields", "field_types", "accessor", "items"],
+    monitors=[mon_c06],
+    nontrivial=lambda res: res.hv[0] == "ok" and res.case.get("exp") and any(
+        t.get("base_fields") and t.get("has_vftable") for t in res.case["exp"]["types"].values()),
+    rule="gen.py INHERIT profile: chains and trees of bases (1..3 bases per type, depth up to the number of types), each base with or without a vftable, derived "
+         "with or without its own block re-declaring the inherited slots; single-slot mutations come from the near-miss stream and the corpus; "
+         "non-trivial = accepted with a type that has a base and a vftable",
+    level_text="Proved in Coq (Properties/C06.v): with a first base that has a vftable, an accepted derived type has no own pointer region, its block (if any) extends the base's "
+               "functions position by position (record equality: name, receiver/parameters, return type, convention, also visibility and doc), any differing slot rejects, the accessor goes through the base field and "
+               "(RustExec) yields the base sub-object's accessor value; without such a base an own block puts the single pointer-sized private `vftable` field first, at offset 0, before all declared fields. "
+               "Correspondence compares struct fields, accessor bodies and verdicts; the monitor recomputes prefix and pointer placement from the emitted files.",
+    level_note="Trusted: Coq kernel; model validated by this run's correspondence; RustExec.v for the accessor's value.",
+)
+PROPS["C07"] = dict(
+    profile=INHERIT_PROFILE, n=(400, 6000), corpus=["common", "C07"],
+    aspects=["verdict", "methods", "body_field", "fn_sig", "asref", "asref_conflict", "items"],
+    monitors=[mon_c07],
+    nontrivial=lambda res: res.hv[0] == "ok" and res.case.get("exp") and any(
+        t.get("base_fields") and public_assoc(res.case["exp"], p_, {}) for p_, t in res.case["exp"]["types"].items()),
+    rule="gen.py INHERIT profile: hierarchies with up to three bases per level, diamonds (the same base type reached twice), name clashes between bases (same type twice) "
+         "and public/private mixes; non-trivial = accepted with a derived type that re-exposes >= 1 function",
+    level_text="Proved in Coq (Properties/C07.v): inject_bases appends, per resolved base in region order, one forwarding function per public associated function (and per public virtual function for "
+               "bases after the first), copying signature/visibility/doc/convention, with body 'call g on field b'; named g when unused, else <field>_<g>; RustExec: calling it = calling g on the object at self+offset(b), "
+               "that offset being the prefix-sum offset of b. Receiver-less forwarded functions are known finding F10. AsRef/AsMut conversions are covered by correspondence (asref aspects) and the monitor "
+               "(unique base types get both impls with the field path; repeated ones get none), not by a theorem.",
+    level_note="Trusted: Coq kernel; model validated by this run's correspondence; RustExec.v for method calls; the AsRef/AsMut clause is decided by correspondence + monitor only (partial).",
+    kf_filter=lambda case: False,
+)
+PROPS["C15"] = dict(
+    profile=dict(p_singleton=0.6, extern_values=(1, 4), enums=(1, 3), types=(1, 3), externs=(0, 2), p_vftable=0.1, p_impl=0.1, p_base=0.1,
+                 p_backend=0.0, fields=(0, 3)),
+    n=(400, 6000), corpus=["common", "C15"],
+    aspects=["verdict", "singleton", "extern", "items"],
+    monitors=[mon_c15],
+    nontrivial=lambda res: res.hv[0] == "ok" and res.case.get("exp") and (
+        res.case["exp"]["externs"] or any(t.get("singleton") is not None for t in list(res.case["exp"]["types"].values()) + list(res.case["exp"]["enums"].values()))),
+    rule="gen.py with singletons on 60% of types/enums and 1..4 extern values per module (pointer, array, user and built-in types; addresses in all literal spellings); "
+         "near-miss: extern value without address; non-trivial = accepted with >= 1 singleton or extern value",
+    level_text="Proved in Coq (Properties/C15.v): an extern value is registered only with an address attribute (last wins, negative rejected), keeps name/visibility/address, and ends with its declared type "
+               "resolved or the build fails; without an address it is rejected. RustExec defines the accessors' values (struct get: word at A, None when null; enum get: value at A; get_x: reference to A). "
+               "Correspondence compares the emitted accessor items token for token (address by value); the monitor checks signature, address and cast type against the description.",
+    level_note="Trusted: Coq kernel; model validated by this run's correspondence; RustExec.v definitions for what the accessor bodies compute.",
 )
 
 NOT_YET = {}
